@@ -15,6 +15,7 @@ RULE = ('write/writeln(int) for all 65536 values at 16 bits (16 shards of 4096 v
         'mutable local, parameter and string-converted; every call surrounded by live caller scalars and arrays that are re-printed afterwards, '
         'at a generous stack and at the smallest stack that does not overflow; non-trivial = every value / length; distinct by (kind, value, word)')
 ASSUMPTIONS = common.ISA_ASSUMPTIONS[:3]
+REQUIRED_HIDC_FUNCTIONS = ['codegen/generator:CodeGen.eval_func_call']     # M-COV: deciding code never entered => inconclusive
 MIN_NONTRIVIAL = {'quick': 66000, 'thorough': 90000}
 
 INT_PROG = '''
@@ -143,10 +144,14 @@ def run_shard(spec):
             data = bytes(r.choice([0, 10, 13, 34, 39, 92, 127, 128, 255, r.randrange(256)]) for _ in range(n))
             from .c13 import spell
             lit = '"' + spell(r, data) + '"'
-            arr = '[' + ', '.join(str(b) for b in data) + ']'
+            ad = bytes((x * 7 + 3) & 0xFF for x in data)      # the byte arrays hold other bytes than the string
+            arr = '[' + ', '.join(str(b) for b in ad) + ']'
             ty_pad = f'const byte[] GC = {arr};\n' if n else 'const byte[] GC = [];\n'
             src = (ty_pad + f'string GS = {lit};\n'
                    'empty viaparam(const byte[] p, string s, byte[] m) { write(p); write(\'|\'); write(s); write(\'|\'); writeln(m); writeln(p); writeln(s); }\n'
+                   'string pick(string s) { return s; }\n'
+                   'empty conv(string ps) { write(ps is byte[]); write(\'|\'); writeln((ps is byte[]).length); }\n'
+                   + (f'const int[] ITAB = {arr};\n' if n else '') +
                    'empty @is_you(const byte[] arg) {\n'
                    f'    byte[] LM = {arr if n else "[]"};\n'
                    '    int keep = 31337;\n'
@@ -154,17 +159,22 @@ def run_shard(spec):
                    f'    write({lit}); write(\'|\'); write({arr if n else "GC"}); write(\'|\');\n'
                    '    viaparam(GC, GS, LM); viaparam(LM, GS, LM); viaparam(arg, GS, LM);\n'
                    '    writeln(GC); writeln(GS); writeln(LM); writeln(); write(keep); write(LM.length);\n'
+                   '    string ls = GS; write(\'@\'); write(ls is byte[]); write(pick(ls) is byte[]); conv(ls); conv(pick(GS));\n'
+                   + ('    write(ITAB.length); const byte[] BTAB = ' + arr + '; write(BTAB); write(ITAB[0]);\n' if n else '')
                    + (('    const byte[] LC = [' + ', '.join(f'LM[{i}]' for i in range(n)) + ']; write(\'#\'); write(LC); writeln(LC); viaparam(LC, GS, LM);\n'
                        '    write([LM[0], \'x\', LM[' + str(n - 1) + ']]); write(LC.length);\n') if 1 <= n <= 9 else '')
                    + '}\n')
             d = data
-            want = (d + b'|') * 7
+            want = ad + b'|' + d + b'|' + ad + b'|' + d + b'|' + ad + b'|' + d + b'|' + ad + b'|'
             for _ in range(3):
-                want += d + b'|' + d + b'|' + d + b'\n' + d + b'\n' + d + b'\n'
-            want += d + b'\n' + d + b'\n' + d + b'\n\n' + b'31337' + str(n).encode()
+                want += ad + b'|' + d + b'|' + ad + b'\n' + ad + b'\n' + d + b'\n'
+            want += ad + b'\n' + d + b'\n' + ad + b'\n\n' + b'31337' + str(n).encode()
+            want += b'@' + d + d + (d + b'|' + str(n).encode() + b'\n') * 2
+            if n:
+                want += str(n).encode() + ad + str(ad[0]).encode()
             if 1 <= n <= 9:
-                want += b'#' + d + d + b'\n' + d + b'|' + d + b'|' + d + b'\n' + d + b'\n' + d + b'\n' + bytes([d[0]]) + b'x' + bytes([d[-1]]) + str(n).encode()
-            expect_run(res, src, [str(b) for b in data], spec['word'], want, f'write(byte array / string) of length {n}', [runner.case_id('arr', n, spec['word'], i) for i in range(4)])
+                want += b'#' + ad + ad + b'\n' + ad + b'|' + d + b'|' + ad + b'\n' + ad + b'\n' + d + b'\n' + bytes([ad[0]]) + b'x' + bytes([ad[-1]]) + str(n).encode()
+            expect_run(res, src, [str(b) for b in ad], spec['word'], want, f'write(byte array / string) of length {n}', [runner.case_id('arr', n, spec['word'], i) for i in range(4)])
         res['exhaustive'] = True
         res['samples'].append({'write_arrays': 'lengths 0..64 as const global, string, mutable local, string-converted, argument, parameter'})
     else:
